@@ -11,6 +11,7 @@ import Ymq.Lemmas.GcdTerm
 import Ymq.Lemmas.GcdOne
 import Ymq.Lemmas.GcdInv
 import Ymq.Lemmas.GcdTotal
+import Ymq.Lemmas.GcdCof
 
 namespace Ymq.C09
 open Ymq.Gcd
@@ -37,8 +38,8 @@ theorem reduce64_inv (x y : Nat) (hx : x < 2 ^ 64) (hy : y < 2 ^ 64) :
       a.natAbs ≤ 2 ^ 36 ∧ b.natAbs ≤ 2 ^ 36 ∧ c.natAbs ≤ 2 ^ 36 ∧ d.natAbs ≤ 2 ^ 36 := by
   obtain ⟨a, b, c, d, u, v, hr, hinv, _⟩ := reduce64_spec x y (by rw [W_eq]; exact hx) (by rw [W_eq]; exact hy)
   refine ⟨a, b, c, d, u, v, hr, hinv.relu, hinv.relv, ?_, ?_, hinv.det, ?_, ?_, ?_, ?_⟩
-  · rcases hinv.phase with ⟨_, _, _, _, rfl, rfl⟩ | ⟨_, _, _, _, rfl, rfl, _⟩ | ⟨h1, h2⟩ <;> omega
-  · rcases hinv.phase with ⟨_, _, _, _, rfl, rfl⟩ | ⟨_, _, _, _, rfl, rfl, _⟩ | ⟨h1, h2⟩ <;> omega
+  · rcases hinv.phase with ⟨_, _, _, _, rfl, rfl⟩ | ⟨_, _, _, _, rfl, rfl, _⟩ | ⟨h1, h2, _⟩ <;> omega
+  · rcases hinv.phase with ⟨_, _, _, _, rfl, rfl⟩ | ⟨_, _, _, _, rfl, rfl, _⟩ | ⟨h1, h2, _⟩ <;> omega
   all_goals
     first
     | (have h := hinv.ba; rw [Int.abs_eq_natAbs] at h; omega)
@@ -110,20 +111,12 @@ theorem mulword_no_panic (N w sz n : Nat) (hsz : sz ≤ N) (hn : n < (2 ^ 64) ^ 
 example : mulword 2 5 2 (2 ^ 100) = some (5 * 2 ^ 100) ∧ mulword 2 (2 ^ 40) 2 (2 ^ 100) = none := by
   decide +kernel
 
-/-- `no_panic`, partial: **proved** for the non-extended variant on the whole of `BUint<N>`
-(`big_gcd`, hence `ZmodN::gcd`), including operands within 36 bits of the type width (quotient
-fallback), operands with a small top word, the `mulword` index, the `BUint` addition in
+/-- `no_panic`, non-extended variant (`big_gcd`, hence `ZmodN::gcd`): on the whole of `BUint<N>`
+(no bound below the type width is needed), including operands within 36 bits of the type width
+(quotient fallback), operands with a small top word, the `mulword` index, the `BUint` addition in
 `dot_product`, every i64 operation and debug assertion of `reduce64`, `top64`, and fuel: `big_gcd`
-returns, and what it returns is the gcd.
-See `no_panic_ext_partial` for what is proved about the extended variant.
-**Missing** for the full statement (extended variant `gcd_internal::<N, true>` / `inv_mod` on
-operands of at most `64 N - 12` bits): a bound on the `BInt<N>` cofactors `biga..bigd` showing that
-their range checks cannot fail. The loop's `(x, y)` evolution, `reduce64`, `dot_product`, `mulword`
-and `top64` are covered by `reduce64_inv`, `mulword_no_panic` and the lemmas behind this theorem
-for both variants; the cofactor range is covered by the differential runs only (no panic observed up
-to 1012 / 500 bits; a 511-bit modulus in the 512-bit instantiation does overflow `BInt<8>` in the
-checked profile, see corpus/C09). -/
-theorem no_panic_partial (N : Nat) (hN : 0 < N) (n p : Nat) (hn : n < 2 ^ (64 * N)) (hp : p < 2 ^ (64 * N)) :
+returns, and what it returns is the gcd. The extended variant is `no_panic_ext`. -/
+theorem no_panic (N : Nat) (hN : 0 < N) (n p : Nat) (hn : n < 2 ^ (64 * N)) (hp : p < 2 ^ (64 * N)) :
     bigGcd N n p = some (Nat.gcd n p) := by
   have hd : ∃ d, bigGcd N n p = some d := by
     unfold bigGcd
@@ -139,17 +132,13 @@ theorem no_panic_partial (N : Nat) (hN : 0 < N) (n p : Nat) (hn : n < 2 ^ (64 * 
 example : ((2 ^ 1018 + 12345) * 35 : Nat) < 2 ^ (64 * 16) ∧ bigGcd 16 ((2 ^ 1018 + 12345) * 35) ((2 ^ 1000 + 15) * 35) = some 35 := by
   decide +kernel
 
-/-- `no_panic` for the extended variant, partial. The model's loop takes the width `K` (in words)
-of the `BInt` cofactors as a separate parameter; the real code is the instance `K = N`
-(`gcdInternal N ext n p = gcdLoop N N ext (gcdFuel N) (initSt n p)`). **Proved**: for every pair of
-`BUint<N>` operands there is a cofactor width `K` for which `gcd_internal::<N, true>` returns (and
-returns the gcd with valid Bezout cofactors) — i.e. no panic site other than the `BInt` range checks
-on `biga..bigd` is reachable in the extended variant either: not the `mulword` index, not the
-`BUint` addition/multiplication/subtraction, not `top64`, not `reduce64`, not the i64
-`extended_gcd` of the final step, not lack of fuel; this includes operands within 36 bits of the
-type width. **Missing**: that `K = N` suffices for operands of at most `64 N - 12` bits (a bound
-`|cofactor| <= c * max(n, p)`); this is covered by the differential runs only. -/
-theorem no_panic_ext_partial (N : Nat) (hN : 0 < N) (n p : Nat) (hn : n < 2 ^ (64 * N)) (hp : p < 2 ^ (64 * N)) :
+/-- Outside the domain of `no_panic_ext`, on the whole of `BUint<N>`: the only panic sites the
+extended variant can reach are the `BInt` range checks on the cofactors. The model's loop takes the
+width `K` (in words) of the `BInt` cofactors as a separate parameter (the real code is `K = N`); for
+every pair of `BUint<N>` operands there is a width `K` for which `gcd_internal::<N, true>` returns the
+gcd with valid Bezout cofactors — so the `mulword` index, the `BUint` operations, `top64`,
+`reduce64`, the i64 `extended_gcd` and the fuel are never the reason of a panic, for any operands. -/
+theorem no_panic_ext_any_width (N : Nat) (hN : 0 < N) (n p : Nat) (hn : n < 2 ^ (64 * N)) (hp : p < 2 ^ (64 * N)) :
     ∃ (K d : Nat) (u v : Int), gcdLoop N K true (gcdFuel N) (initSt n p) = some (d, u, v) ∧
       d = Nat.gcd n p ∧ u * n + v * p = d := by
   obtain ⟨K, ⟨d, u, v⟩, hr⟩ := gcdLoop_ext_exists hN (n := n) (p := p) hn hp
@@ -159,6 +148,65 @@ theorem no_panic_ext_partial (N : Nat) (hN : 0 < N) (n p : Nat) (hn : n < 2 ^ (6
 example : gcdInternal 4 true 1234567890123456789012345678901234567890 987654321098765432109876543210 =
     gcdLoop 4 4 true (gcdFuel 4) (initSt 1234567890123456789012345678901234567890 987654321098765432109876543210) :=
   rfl
+
+/-- `no_panic`, extended variant with the real cofactor width: for operands below `2^(64N-12)`
+(1012 bits for N = 16, 500 bits for N = 8, 244 bits for N = 4 — exactly the supported range of the
+property) `gcd_internal::<N, true>` never panics: no `BInt<N>` cofactor operation overflows (nor any
+other site), and it returns the gcd with valid Bezout cofactors.
+Invariant behind it (Ymq/Lemmas/GcdCof.lean): in every loop state, (cofactors of the larger value) *
+(smaller value) `<= 1023 * max(n, p)`; the determinant identity `x*C = A*y -+ p` then bounds every
+product formed by the quotient step, the Lehmer step and the final i64 `extended_gcd` combination
+by `2047 * max(n, p) < 2^(64N-1)`. The constant is not far from reality: intermediate products of
+about `50 * max(n, p)` do occur, see `no_panic_ext_domain_sharp`. -/
+theorem no_panic_ext (N : Nat) (hN : 0 < N) (n p : Nat) (hn : n < 2 ^ (64 * N - 12))
+    (hp : p < 2 ^ (64 * N - 12)) :
+    ∃ (d : Nat) (u v : Int), gcdInternal N true n p = some (d, u, v) ∧
+      d = Nat.gcd n p ∧ u * n + v * p = d := by
+  obtain ⟨d, u, v, hr, _⟩ := gcdInternal_ext_total hN hn hp
+  have hr' := hr
+  unfold gcdInternal at hr'
+  obtain ⟨h1, h2⟩ := gcdLoop_spec hN _ _ d u v hr' (GInv_init true n p)
+  exact ⟨d, u, v, hr, h1, h2 rfl⟩
+
+example : (2 ^ 243 + 12345 : Nat) < 2 ^ (64 * 4 - 12) ∧
+    ∃ u v, gcdInternal 4 true (2 ^ 243 + 12345) (2 ^ 240 + 77) = some (1, u, v) := by
+  refine ⟨by decide, ?_⟩
+  obtain ⟨d, u, v, h, hd, _⟩ := no_panic_ext 4 (by decide) (2 ^ 243 + 12345) (2 ^ 240 + 77)
+    (by decide) (by decide)
+  have : d = 1 := by rw [hd]; decide +kernel
+  subst this
+  exact ⟨u, v, h⟩
+
+/-- the domain of `no_panic_ext` cannot be extended to `64N - 6` bits: for N = 4 this pair of 250-bit
+operands makes the `BInt<4>` cofactor arithmetic of the final `<64`-bit combination overflow (model:
+`none`; real code: panic "attempt to multiply with overflow" in the checked profile, a correct
+result in the release profile, where the wrapped products cancel). Between `64N - 11` and `64N - 7`
+bits the question is open (no panic found by the runs). -/
+theorem no_panic_ext_domain_sharp :
+    (1685388928722287561573468839125071511021812907006236161640012683817539665347 : Nat) < 2 ^ (64 * 4 - 6) ∧
+    (1724353979614899190960037120248823706984006128851863788760191301092522462335 : Nat) < 2 ^ (64 * 4 - 6) ∧
+    gcdInternal 4 true 1685388928722287561573468839125071511021812907006236161640012683817539665347
+      1724353979614899190960037120248823706984006128851863788760191301092522462335 = none := by
+  decide +kernel
+
+/-- `inv_mod::<N>(n, p)` never panics for a non-zero modulus and operands below `2^(64N-12)`
+(what it returns is described by `inv_mod_spec`). -/
+theorem inv_mod_no_panic (N : Nat) (hN : 0 < N) (n p : Nat) (hp0 : p ≠ 0)
+    (hn : n < 2 ^ (64 * N - 12)) (hp : p < 2 ^ (64 * N - 12)) : ∃ r, invMod N n p = some r := by
+  unfold invMod
+  rw [if_neg hp0]
+  split
+  · split <;> exact ⟨_, rfl⟩
+  · obtain ⟨d, u, v, hr, hu⟩ := gcdInternal_ext_total hN hn hp
+    rw [hr]
+    simp only
+    split
+    · exact ⟨_, rfl⟩
+    · split
+      · have hd := (Dom_of_lt hN hn hp).L
+        rw [chkB_of_abs hd (by rw [abs_neg]; linarith)]
+        exact ⟨_, rfl⟩
+      · exact ⟨_, rfl⟩
 
 /-- `inv_mod::<N>(n, p)` for every `n` and every modulus `p` (`p = 0` is refused by the assertion:
 the model returns `none`): whenever it returns,
